@@ -18,6 +18,7 @@ structure Life (s : St) : Prop where
   fe : s.loaded = true → FilesExist s
   run : s.errC = true → s.stopAnn = false → s.allocator = false → s.info = true → s.loaded = true
   ni : s.info = false → s.allocator = false ∧ s.verifier = false ∧ s.loaded = false ∧ s.completed = false ∧ s.bf = none
+  ver : s.verifier = true → s.loaded = true
 
 /-- `s` is neither stopped nor stopping. -/
 def Running (s : St) : Prop := s.errC = true ∧ s.stopAnn = false
@@ -57,13 +58,14 @@ theorem Life.of_running_frame {s s' : St} (h : Life s) (hr : Running s)
     (h7 : s'.info = s.info) (h8 : s'.completed = s.completed) (h9 : s'.bf = s.bf)
     (h10 : s'.fileExists = s.fileExists) (h11 : s'.cfg = s.cfg) : Life s' := by
   obtain ⟨he, hs⟩ := hr
-  refine ⟨?_, ?_, ?_, ?_, ?_, ?_⟩
+  refine ⟨?_, ?_, ?_, ?_, ?_, ?_, ?_⟩
   · rw [h1, h2]; exact h.sa
   · rw [h1, h2, he, hs]; intro hh; simp at hh
   · rw [h6]; exact h.leaked
   · rw [h5]; intro hl; have := h.fe hl; unfold FilesExist at *; rw [h10, h11]; exact this
   · rw [h1, h2, h3, h5, h7]; exact h.run
   · rw [h3, h4, h5, h7, h8, h9]; exact h.ni
+  · rw [h4, h5]; exact h.ver
 
 /-- Closes `Life (H m).1` for handlers covered by `Life.of_running_frame`. -/
 macro "life_frame" h:term "," hr:term : tactic =>
@@ -77,29 +79,31 @@ theorem Life.of_frame {s s' : St} (h : Life s)
     (h10 : s'.fileExists = s.fileExists) (h11 : s'.cfg = s.cfg)
     (h12 : s'.acceptor = s.acceptor) (h13 : s'.openFiles = s.openFiles) (h14 : s'.peers = s.peers)
     (h15 : s'.dls = s.dls) (h16 : s'.idls = s.idls) : Life s' := by
-  refine ⟨?_, ?_, ?_, ?_, ?_, ?_⟩
+  refine ⟨?_, ?_, ?_, ?_, ?_, ?_, ?_⟩
   · rw [h1, h2]; exact h.sa
   · rw [h1, h2, h3, h4, h5, h12, h13, h14, h15, h16]; exact h.idle
   · rw [h6]; exact h.leaked
   · rw [h5]; intro hl; have := h.fe hl; unfold FilesExist at *; rw [h10, h11]; exact this
   · rw [h1, h2, h3, h5, h7]; exact h.run
   · rw [h3, h4, h5, h7, h8, h9]; exact h.ni
+  · rw [h4, h5]; exact h.ver
 
 /-- Only `fileExists` changed, and now every file exists. -/
 theorem Life.set_files {s s' : St} (h : Life s)
     (h1 : s'.errC = s.errC) (h2 : s'.stopAnn = s.stopAnn) (h3 : s'.allocator = s.allocator)
     (h4 : s'.verifier = s.verifier) (h5 : s'.loaded = s.loaded) (h6 : s'.leaked = s.leaked)
     (h7 : s'.info = s.info) (h8 : s'.completed = s.completed) (h9 : s'.bf = s.bf)
-    (h11 : s'.cfg = s.cfg)
+    (_h11 : s'.cfg = s.cfg)
     (h12 : s'.acceptor = s.acceptor) (h13 : s'.openFiles = s.openFiles) (h14 : s'.peers = s.peers)
     (h15 : s'.dls = s.dls) (h16 : s'.idls = s.idls) (hfe : FilesExist s') : Life s' := by
-  refine ⟨?_, ?_, ?_, ?_, ?_, ?_⟩
+  refine ⟨?_, ?_, ?_, ?_, ?_, ?_, ?_⟩
   · rw [h1, h2]; exact h.sa
   · rw [h1, h2, h3, h4, h5, h12, h13, h14, h15, h16]; exact h.idle
   · rw [h6]; exact h.leaked
   · intro _; exact hfe
   · rw [h1, h2, h3, h5, h7]; exact h.run
   · rw [h3, h4, h5, h7, h8, h9]; exact h.ni
+  · rw [h4, h5]; exact h.ver
 
 /-- `s'` agrees with `s` on every field `Life` reads. -/
 structure LFrame (s s' : St) : Prop where
@@ -214,7 +218,7 @@ theorem stop_life (s : St) (e : Bool) (h : Life s) : Life (s.stop e) := by
       · exact absurd (Or.inr ((status_stopped_iff s).2 he)) hst
       · rfl
     obtain ⟨f1, f2, f3, f4, f5, f6, f7, f8, f9⟩ := stopRun_fields s e
-    refine ⟨?_, ?_, ?_, ?_, ?_, ?_⟩
+    refine ⟨?_, ?_, ?_, ?_, ?_, ?_, ?_⟩
     · intro _; simpa using herr
     · intro _; exact ⟨f2, f3, f4, f5, f6, f7, f8, f9⟩
     · simpa using h.leaked
@@ -228,6 +232,7 @@ theorem stop_life (s : St) (e : Bool) (h : Life s) : Life (s.stop e) := by
       rcases hbf with hb | hb
       · rw [hb]; exact this.2.2.2.2
       · exact hb
+    · intro hv; rw [f3] at hv; cases hv
 
 /-- `stop` on a running torrent needs very little of its argument. -/
 theorem stop_life' (s : St) (e : Bool) (hr : Running s) (hl : s.leaked = 0)
@@ -239,7 +244,7 @@ theorem stop_life' (s : St) (e : Bool) (hr : Running s) (hl : s.leaked = 0)
     · have := (status_stopped_iff s).1 h; rw [hr.1] at this; cases this
   rw [if_neg hst]
   obtain ⟨f1, f2, f3, f4, f5, f6, f7, f8, f9⟩ := stopRun_fields s e
-  refine ⟨?_, ?_, ?_, ?_, ?_, ?_⟩
+  refine ⟨?_, ?_, ?_, ?_, ?_, ?_, ?_⟩
   · intro _; simpa using hr.1
   · intro _; exact ⟨f2, f3, f4, f5, f6, f7, f8, f9⟩
   · simpa using hl
@@ -253,12 +258,13 @@ theorem stop_life' (s : St) (e : Bool) (hr : Running s) (hl : s.leaked = 0)
     rcases hbf with hb | hb
     · rw [hb]; exact this.2
     · exact hb
+  · intro hv; rw [f3] at hv; cases hv
 
 /-- A loaded, running torrent whose files exist satisfies `Life` whatever else is going on. -/
 theorem Life.of_loaded {s : St} (hr : Running s) (hi : s.info = true) (hl : s.loaded = true)
     (hfe : FilesExist s) (hk : s.leaked = 0) : Life s := by
   obtain ⟨he, hs⟩ := hr
-  refine ⟨?_, ?_, hk, fun _ => hfe, fun _ _ _ _ => hl, ?_⟩
+  refine ⟨?_, ?_, hk, fun _ => hfe, fun _ _ _ _ => hl, ?_, fun _ => hl⟩
   · rw [hs]; intro h; cases h
   · rw [he, hs]; intro h; simp at h
   · rw [hi]; intro h; cases h
@@ -347,17 +353,19 @@ theorem handleVerifyCommand_life (m : M) (h : Life m.1) : Life (handleVerifyComm
 /-- A running state in which the metadata is known and the allocator runs (what adoption of the metadata,
 or `start`, produces). -/
 theorem Life.of_allocating {s s' : St} (h : Life s) (hr : Running s)
-    (h1 : s'.errC = s.errC) (h2 : s'.stopAnn = s.stopAnn) (h5 : s'.loaded = s.loaded) (h6 : s'.leaked = s.leaked)
+    (h1 : s'.errC = s.errC) (h2 : s'.stopAnn = s.stopAnn) (h4 : s'.verifier = s.verifier)
+    (h5 : s'.loaded = s.loaded) (h6 : s'.leaked = s.leaked)
     (h10 : s'.fileExists = s.fileExists) (h11 : s'.cfg = s.cfg)
     (hinfo : s'.info = true) (halloc : s'.allocator = true) : Life s' := by
   obtain ⟨he, hs⟩ := hr
-  refine ⟨?_, ?_, ?_, ?_, ?_, ?_⟩
+  refine ⟨?_, ?_, ?_, ?_, ?_, ?_, ?_⟩
   · rw [h2, hs]; intro h; cases h
   · rw [h1, h2, he, hs]; intro h; simp at h
   · rw [h6]; exact h.leaked
   · rw [h5]; intro hl; exact (h.fe hl).congr h10 h11
   · intro _ _ ha; rw [halloc] at ha; cases ha
   · rw [hinfo]; intro h; cases h
+  · rw [h4, h5]; exact h.ver
 
 theorem handleMetadataData_life (m : M) (k i len : Nat) (g : Bool) (h : Life m.1) (hr : Running m.1) :
     Life (handleMetadataData m k i len g).1 := by
